@@ -246,3 +246,9 @@ mod tests {
         assert!(!Pattern::new(r"foo\", false).matches("\n"));
     }
 }
+
+// Verification hook: harnesses live outside the repository (see MANIFEST.hooks of the verifier).
+#[cfg(kani)]
+pub(crate) mod verif_kani {
+    include!(concat!(env!("FINDUTILS_VERIF_DIR"), "/harness/m_glob.rs"));
+}
